@@ -1009,6 +1009,18 @@ class CompilerPassGenerateCode(CompilerPass):
         self._visit_node(self.tree)
 
 
+_COMMENT_RE = re.compile(r"\"[^\"]*\"|'[^']*'|#")
+
+
+def _strip_comment(line: str) -> str:
+    """the part of an IC10 line in front of its comment; a '#' inside a quoted
+    string, e.g. HASH("a:#"), is text and does not start a comment"""
+    for m in _COMMENT_RE.finditer(line):
+        if m.group(0) == "#":
+            return line[: m.start()]
+    return line
+
+
 class CompilerPassGatherCode(CompilerPass):
     def __init__(self, data: CodeData):
         super().__init__(data)
@@ -1242,7 +1254,7 @@ class CompilerPassGatherCode(CompilerPass):
             # we must keep labels that are the target of jal instructions,
             # because there is no jral
             for line in code.splitlines():
-                cline = line.split("#")[0].strip()
+                cline = _strip_comment(line).strip()
                 op = cline.split()[0] if cline else ""
                 if is_branch(op) and not op in _HAS_RELATIVE_INSTRUCTION:
                     parts = cline.split()
@@ -1251,7 +1263,7 @@ class CompilerPassGatherCode(CompilerPass):
                         keep_labels.add(label)
 
         for line in code.splitlines():
-            cline = line.split("#")[0].strip()
+            cline = _strip_comment(line).strip()
             label = cline[:-1] if cline.endswith(":") else None
             if label and label not in keep_labels:
                 label = cline[:-1]
@@ -1269,7 +1281,7 @@ class CompilerPassGatherCode(CompilerPass):
                     if relative_numbers:
                         offset = target_line - line_num
                         replacement = str(offset)
-                        instruction = line.split("#")[0].strip().split()[0]
+                        instruction = _strip_comment(line).strip().split()[0]
                         if instruction == "jal":
                             replacement = str(target_line)
                         new_instruction = instruction[:1] + "r" + instruction[1:]
